@@ -98,6 +98,47 @@ Definition store_append_err (st : option hdr) (h : hdr) : bool :=
     negb (h_height h =? wrap64 (h_height sh + 1))
   end.
 
+(** syncStore.Append of a LIST (only the sync loop appends more than one header;
+    Parts 1-3 represent the loop by the events sync_part / sync_done, so this
+    function is not used by the machines - it records the shim as of /repo 7d16f07
+    and carries the lemma that justifies sync_done: an accepted list leaves the
+    head pointer at or above every header of the list).  In code order: empty list:
+    nothing; empty store: the last header becomes the head; otherwise the leading
+    headers BELOW the head are skipped and the rest is walked from the head: the
+    head itself again is skipped, every other header must be head+1 and becomes the
+    head, else errNonAdjacent and the pointer stays.  (Before 7d16f07 the walk ran
+    only when the FIRST header was at or above the head: a list starting below the
+    head and reaching above it went through unchecked and left the pointer stale.)
+    For one header this is [store_append] / [store_append_err] (Proofs). *)
+Fixpoint drop_below (hh : N) (l : list hdr) : list hdr :=
+  match l with
+  | h :: r => if h_height h <? hh then drop_below hh r else l
+  | [] => []
+  end.
+
+Fixpoint walk (head : hdr) (l : list hdr) : option hdr :=
+  match l with
+  | [] => Some head
+  | h :: r =>
+    if same_head head h then walk head r
+    else if h_height h =? wrap64 (h_height head + 1) then walk h r
+    else None
+  end.
+
+Definition store_append_list (st : option hdr) (l : list hdr) : option hdr * bool :=
+  match l with
+  | [] => (st, false)
+  | _ =>
+    match st with
+    | None => (Some (last l hdr_nil), false)
+    | Some sh =>
+      match drop_below (h_height sh) l with
+      | [] => (st, false)
+      | rest => match walk sh rest with Some h' => (Some h', false) | None => (st, true) end
+      end
+    end
+  end.
+
 (** ranges.Add as seen through ranges.Head: a header not above the head is ignored *)
 Definition pend_add (pd : option hdr) (h : hdr) : option hdr :=
   match pd with
